@@ -173,10 +173,29 @@ func genFail(r *vlib.R, emit func(string)) {
 	emit(fmt.Sprintf("fail classify %s %s %s %s %s", vlib.Pick(r, failCtxs), vlib.B(r.Chance(1, 5)), vlib.Pick(r, failModes), vlib.Pick(r, failLatchs), vlib.Pick(r, failMarks)))
 }
 
+// forwarder chains use a fresh id each time: the upstream's answers are cached across pipes only by
+// name, and a cold cache is what the model of `forwardOps` assumes
+var fwdChainID = 1000
+
 func genPipeCase(r *vlib.R, emit func(string), dflt string) int {
 	mode := vlib.Pick(r, []string{"enforce", "enforce", "enforce", "shadow", "off", "-"})
 	raw := genCaps(r, true)
 	fo := r.Chance(1, 3)
+	if !fo && r.Chance(1, 4) {
+		// forwarder mode: aliases answered bare by the upstream, every hop one forwarded query
+		emit(fmt.Sprintf("pipe new %s %s %s forwarder", mode, u32csv(raw), dflt))
+		caps := configuredCaps(raw)
+		n := r.Range(3, 6)
+		for i := 0; i < n; i++ {
+			length := int(vlib.Pick(r, []uint32{caps[0], caps[1]})) + r.Range(-2, 1)
+			if length < 1 || length > 9 {
+				length = r.Range(1, 5)
+			}
+			emit(fmt.Sprintf("pipe chain %d %d %s f 10.%d.0.%d:40000", fwdChainID, length, vlib.B(r.Chance(2, 3)), r.Intn(200), 1+r.Intn(200)))
+			fwdChainID++
+		}
+		return n + 1
+	}
 	if fo {
 		emit(fmt.Sprintf("pipe new %s %s %s failover", mode, u32csv(raw), dflt))
 	} else {
@@ -475,6 +494,10 @@ func gen(r *vlib.R, n int, tier string, emit func(string)) {
 		{"l3 new manysig 6 1 shadow 0 0 2 5 30", "l3 query t t t"},
 		{"l3 new manysig 8 2 enforce 0 0 1000 0 30", "l3 query t t t", "l3 again 11"},
 		{"l3 new updown 7 0 enforce 6 0 0 5 30", "l3 query t f t"},
+		{"l3 new lame 3 5 enforce 3 0 0 0 30", "l3 query t f t", "l3 again 21"},
+		{"l3 new lame 4 5 enforce 3 0 0 0 30", "l3 query t f f", "l3 again 22"},
+		{"l3 new lame 2 5 enforce 3 0 0 5 30", "l3 query t f t", "l3 again 23"},
+		{"l3 new lame 2 5 shadow 0 0 0 0 30", "l3 query t f t"},
 		{"l3 new deep 6 0 enforce 0 3 0 0 30 nocache,signed", "l3 query t t t"},
 		{"l3 new deep 5 0 shadow 0 2 0 5 30 nocache,signed", "l3 query t t t"},
 		{"l3 new hugens 20 0 enforce 0 4 0 0 30 failover", "l3 query t f t", "l3 again 13"},
@@ -524,7 +547,31 @@ func gen(r *vlib.R, n int, tier string, emit func(string)) {
 			continue
 		}
 		before := count
-		switch k := r.Intn(25); {
+		switch k := r.Intn(26); {
+		case k >= 25:
+			// what lookup returns when no authority answered cleanly: error responses × bogus referrals × attempt errors
+			for i := 0; i < 8; i++ {
+				rc := "-"
+				if n := r.Intn(4); n > 0 {
+					p := make([]string, n)
+					for j := range p {
+						p[j] = fmt.Sprint(vlib.Pick(r, []int{2, 2, 3, 5, 9}))
+					}
+					rc = strings.Join(p, ",")
+				}
+				es := ""
+				for j, n := 0, r.Intn(4); j < n; j++ {
+					es += vlib.Pick(r, []string{"w", "a", "o", "o"})
+				}
+				nc := r.Intn(3)
+				if rc == "-" && nc == 0 && es == "" {
+					es = "o"
+				}
+				if es == "" {
+					es = "-"
+				}
+				emitc(fmt.Sprintf("pick fallback %s %d %s", rc, nc, es))
+			}
 		case k >= 23:
 			count += genDSCase(r, emit)
 		case k >= 20:
